@@ -61,7 +61,9 @@ class Ctx:
         self.consulted: set[str] = set()
 
     # -- obligations -------------------------------------------------------------
-    def ob(self, rule, construct, detail, ok, msg="", node=None, file="", path=None):
+    def ob(self, rule, construct, detail, ok, msg="", node=None, file="", path=None, evidence=False):
+        """Record an obligation.  `evidence=True`: a failure of this obligation is itself positive evidence of a wrong construct
+        (a dataflow fact, a value that was found and differs) -- never demoted to 'unrecognised shape'."""
         line = getattr(node, "lineno", 0) if node is not None else 0
         if node is not None and not file:
             file = getattr(node, "_file", "")
@@ -69,13 +71,15 @@ class Ctx:
         from . import amatch
 
         misses = amatch.take_misses()
+        if evidence:
+            misses = []
         if not ok and misses:
             o.near = max(sc for sc, _, _ in misses)
             if o.near < NEAR:
                 o.unrecognised = True
                 far = max(misses, key=lambda x: x[0])
                 o.msg = (o.msg + f" [no recognised idiom: best match of `{far[1][:70]}` covers {far[0]:.0%} of it]").strip()
-        if not ok and not misses and _NOTHING_FOUND.search(msg or ""):
+        if not ok and not evidence and not misses and _NOTHING_FOUND.search(msg or ""):
             # the extractor found nothing to judge (empty list / "not found"): the construct has no recognised shape any more
             o.unrecognised = True
             o.msg = (o.msg + " [nothing extracted: the construct is not in a recognised shape]").strip()
